@@ -83,8 +83,9 @@ pub fn gen(rng: &mut Rng, p: &Params) -> Vec<String> {
         if i % 40 == 39 {
             lines.push(format!("case P{}", i / 40 + 1));
         }
-        let n = *r.pick(&[0usize, 1, 2, 3, 4, 5, 7, 31, 64, 254, 255, 256, 257, 511, 1000, 3000]);
-        let kind = r.below(7);
+        let n = *r.pick(&[0usize, 1, 2, 3, 4, 5, 7, 31, 64, 254, 255, 256, 257, 511, 1000, 3000, 4095, 4096, 4097, 9000, 70_000]);
+        // the larger sizes mostly with incompressible bytes (the encoder must fall back to the raw form)
+        let kind = if n >= 4095 && r.chance(60) { 0 } else { r.below(7) };
         let x = pattern(r, kind, n);
         match r.below(6) {
             0 | 1 => {
@@ -278,7 +279,13 @@ pub fn exec(lines: &[String], out: &mut Out) {
                 let zs = z.map(|(n, f)| format!("{}:{}", n, f)).unwrap_or("none".into());
                 let ans = match catch_unwind(AssertUnwindSafe(|| Base64Bytes::from_bytes(Bytes::from(x.clone())))) {
                     Err(_) => "panic".to_string(),
-                    Ok(Err(_)) => "err".to_string(),
+                    Ok(Err(e)) => {
+                        // C15: every byte string up to the limit can be packed with the published encoder
+                        if x.len() <= 1024 * 1024 {
+                            out.oracle_fail(&case, "encoder-failed", &format!("Base64Bytes::from_bytes refused {} bytes: {}", x.len(), e));
+                        }
+                        "err".to_string()
+                    }
                     Ok(Ok(s)) => {
                         let s = s.to_string();
                         let d = BASE64_STANDARD_NO_PAD.decode(&s).unwrap_or_default();
